@@ -142,7 +142,9 @@ def write_replay(prop, fn_result, vc):
                'requires': fn_result.get('replay_info', {}).get('requires'),
                'harness': fn_result.get('replay_info', {}).get('harness'),
                'module': fn_result.get('replay_info', {}).get('module'),
-               'native_patches': fn_result.get('replay_info', {}).get('native_patches'), 'repo': REPO}, open(p, 'w'), indent=1)
+               'native_patches': fn_result.get('replay_info', {}).get('native_patches'),
+               'loop': fn_result.get('replay_info', {}).get('loop'), 'params': fn_result.get('replay_info', {}).get('params'),
+               'repo': REPO}, open(p, 'w'), indent=1)
     return p
 
 
